@@ -648,6 +648,11 @@ def corr(ctx):
 # ------------------------------------------------------------------ direct property oracle
 
 def check_case(ctx, case):
+    if case.get("clip"):
+        ok, sig, what, exp, obs = eval_clip(case)
+        if not ok:
+            ctx.fail(sig, case, what, expected=exp, observed=obs)
+        return ok
     if case.get("history"):
         ok, sig, what, exp, obs = eval_history(case)
         if not ok:
@@ -1043,6 +1048,106 @@ def eval_history(case):
     return True, None, None, None, None
 
 
+# ---- {include} clipping options in combination ----
+def clip_text(text, start_line, end_line, start_after, end_before):
+    """docutils semantics: lines[start:end] first, then start-after, then end-before searched in the text AFTER start-after"""
+    from myst_parser.parsers.directives import split_lines
+    text = "\n".join(split_lines(text)[start_line:end_line])
+    if start_after:
+        i = text.find(start_after)
+        if i < 0:
+            return None
+        text = text[i + len(start_after):]
+    if end_before:
+        i = text.find(end_before)
+        if i < 0:
+            return None
+        text = text[:i]
+    return text
+
+
+def gen_clip(rng, fixed=None):
+    if fixed is not None:
+        return fixed
+    mk = rng.choice(["<!-- snip -->", "%% cut", "=====", "## "])
+    region = ["region para " + G.words(rng, 1, 2), "", "[home1]: https://home1.example.org/p", "", "[^fn1]: note fn1", "",
+              "- region item"]
+    if mk == "## ":
+        lines = ["## Install", "", "install text", "", "## Usage", ""] + region + ["", "## Later", "", "later text"]
+        sa, eb = "## Usage", "## "
+    else:
+        lines = ["intro " + mk + " early", "", mk, ""] + region + ["", mk, "", "outro text " + mk + " tail"]
+        sa, eb = mk, mk
+        if rng.random() < 0.5:
+            sa = mk + "\n"
+    case = {"clip": True, "lines": lines, "start_after": sa, "end_before": eb, "start_line": None, "end_line": None}
+    r = rng.random()
+    if r < 0.3:
+        case["start_line"] = rng.choice([1, 2])
+    elif r < 0.5:
+        case["end_line"] = len(lines) - rng.choice([1, 2])
+    elif r < 0.6:
+        case["start_after"], case["end_before"] = None, eb
+    elif r < 0.7:
+        case["start_after"], case["end_before"] = sa, None
+    return case
+
+
+FIXED_CLIPS = [
+    {"clip": True, "lines": ["before <!-- s --> x", "", "<!-- s -->", "", "inside", "", "[home1]: https://home1.example.org/p", "",
+                             "[^fn1]: note fn1", "", "<!-- s -->", "", "after"],
+     "start_after": "<!-- s -->\n", "end_before": "<!-- s -->", "start_line": 1, "end_line": None},
+    {"clip": True, "lines": ["## A", "", "a text", "", "## B", "", "b text", "", "[home1]: https://home1.example.org/p", "",
+                             "[^fn1]: note fn1", "", "## C", "", "c text"],
+     "start_after": "## B", "end_before": "## ", "start_line": None, "end_line": None},
+    {"clip": True, "lines": ["x <!-- a --><!-- b --> y", "", "z"], "start_after": "<!-- a -->", "end_before": "<!-- b -->",
+     "start_line": None, "end_line": None},
+]
+
+
+def eval_clip(case):
+    from docutils import nodes
+    from lib.impl import scratch_dir
+    text = "\n".join(case["lines"]) + "\n"
+    clipped = clip_text(text, case["start_line"], case["end_line"], case["start_after"], case["end_before"])
+    if clipped is None:
+        return True, None, None, None, None
+
+    def q(v):
+        return '"' + v.replace("\\", "\\\\").replace('"', '\\"').replace("\n", "\\n") + '"'
+    opts = []
+    if case["start_line"] is not None:
+        opts.append(f":start-line: {case['start_line']}")
+    if case["end_line"] is not None:
+        opts.append(f":end-line: {case['end_line']}")
+    if case["start_after"]:
+        opts.append(":start-after: " + q(case["start_after"]))
+    if case["end_before"]:
+        opts.append(":end-before: " + q(case["end_before"]))
+    later = ["", "````{note}", "use1 [go1][home1] and fnuse x[^fn1] end", "````"]
+    wrapped = ["lead paragraph", "", "```{include} clip.md"] + opts + ["```"] + later
+    plain = ["lead paragraph", ""] + clipped.split("\n") + later
+    try:
+        with scratch_dir() as d:
+            with open(os.path.join(d, "clip.md"), "w", encoding="utf8") as f:
+                f.write(text)
+            src = os.path.join(d, "main.md")
+            dw, ww = parse("\n".join(wrapped) + "\n", source_path=src)
+            dp, _ = parse("\n".join(plain) + "\n", source_path=src)
+    except Exception as e:
+        return False, f"exception:{type(e).__name__}:include-clip", f"rendering raised {e!r}", None, repr(e)
+    a, b = [canon(c) for c in dw.children], [canon(c) for c in dp.children]
+    if a != b:
+        return (False, "include:clipping", "include with " + " ".join(opts) + " differs from the clipped text written in place "
+                "(end-before is searched after start-after): " + str(first_diff(a, b)), show(b), show(a) + "\n" + ww[-300:])
+    if "[home1]:" in clipped:
+        refs = [r for r in dw.findall(nodes.reference) if r.astext() == "go1"]
+        if not refs or refs[0].get("refuri") != "https://home1.example.org/p":
+            return (False, "refdef:inner-definition-not-usable-in-later-nested-parse",
+                    "a refdef inside the clipped region is not usable in a later {note}", "resolved", None)
+    return True, None, None, None, None
+
+
 def usability_doc(kind, what, where):
     """a document with a definition of [what] inside wrapper [kind] and a use outside, [where] = before/after"""
     defs = {"footnote": "[^fn1]: the note text", "target": "(tgt1)=\ninner paragraph", "refdef": "[ref1]: https://ref.example.org/x"}
@@ -1139,11 +1244,17 @@ def search(ctx):
         ctx.search_cases += 1
         ctx.count("include-history")
         check_case(ctx, case)
+    for case in list(FIXED_CLIPS) + [gen_clip(rng) for _ in range(ctx.budget(80, 800, 600))]:
+        ctx.search_cases += 1
+        ctx.count("include-clip")
+        check_case(ctx, case)
     # eval-rst including a Markdown file through docutils' include (:parser:), definition-free bodies
     for i in range(ctx.budget(40, 400, 300)):
         X = G.body(rng, allow=frozenset({"directive"}))
         # docutils' own include splits the file with str.splitlines: keep its separators out of this route
-        if any(t in l for l in X for t in ("[^", "]: ", ")=", "][")) or any(ord(ch) in SEPS for l in X for ch in l):
+        # ... and strips trailing whitespace of every line (statemachine.string2lines)
+        if any(t in l for l in X for t in ("[^", "]: ", ")=", "][")) or any(ord(ch) in SEPS for l in X for ch in l) \
+                or any(l != l.rstrip() for l in X):
             X = ["plain alpha *beta* `code` %d" % i, "", "- item one", "- item two", "", "> quote", "", "```{note}", "inner", "```"]
         ctx.search_cases += 1
         ctx.count("interplay:rst-include-md")
